@@ -266,6 +266,13 @@ def check_runmax(case, ctx):
     ctx.nontrivial(r.strict)
 
 
+from . import _batch  # noqa: E402
+
+
+def _boundary(name, point, dtype):
+    return point["t"] == 0 or point["v"] == 0  # elements at the boundary only ride along (they are C18's subject)
+
+
 SUBS = [
     Sub("pointwise", check_point,
         rule="1..3 points per case on the C07 domain (s in [-1,1] incl. 0 / +-tiny, t in (0,5], v in (0,2] incl. log-uniform tiny "
@@ -285,6 +292,11 @@ SUBS = [
              "above the strike), and touch cases spot = K e^-d with M_run in [spot, K) (American binary -> 1 at the rate of d). "
              "Non-trivial: some relation strict.",
         strategy=lambda tier: runmax_case(), examples={"quick": 6000, "thorough": 150000}),
+    Sub("price_surface", lambda case, ctx: _batch.check_batch(case, ctx, _batch.PRICES, "C09", skip=_boundary),
+        rule="price surfaces: 2..7 points per call, points of the open domain next to points at maturity / zero volatility (as on the time grid "
+             "of a simulated path), exact at-the-money points, hit and not-hit barriers: the price at every OPEN-DOMAIN element must be the "
+             "price of that element alone, so the relations above hold on surfaces as they do point by point. Non-trivial: mixed batch.",
+        strategy=lambda tier: _batch.batch_case(boundary=True), examples={"quick": 1500, "thorough": 15000}),
 ]
 
 META = {
